@@ -54,9 +54,13 @@ def tables(case):
 
 
 def sizeclass(case, m):
+    """Class of a message in the violation keys. smpi/async-small-thresh = 0: 'rdv' (synchronous or >= detached threshold) or
+    'eager'. With async-small-thresh = a > 0 (two mailboxes per rank), two letters: the mailbox in which the message waits when
+    no receive is posted yet (L: len >= a or synchronous send, S otherwise) and its length class (l: len >= a, s: len < a -
+    the sender of an 's' message looks for a posted receive in the large mailbox first). Possible values: Ll, Ls, Ss."""
     a = case["a"]
     if a > 0:
-        return "L" if (m["len"] >= a or m["kind"] in (1, 4)) else "S"
+        return ("L" if (m["len"] >= a or m["kind"] in (1, 4)) else "S") + ("l" if m["len"] >= a else "s")
     return "rdv" if (m["len"] >= case["d"] or m["kind"] in (1, 4)) else "eager"
 
 
